@@ -186,9 +186,13 @@ class Provider:
 
     def complete_with_tools(self, prompt, tools, config=None):
         self.tool_rounds += 1
-        b = self.c.choice("round", ["tools", "no_tools", "two_tools"])
+        if self.tool_rounds > 12:
+            raise Runaway()                  # far beyond any budget (limits are <= 4): stop instead of looping forever
+        b = self.c.choice("round", ["tools", "no_tools", "two_tools", "ghost_only"])
         calls = []
-        if b != "no_tools":
+        if b == "ghost_only":                # only tools that do not exist
+            calls = [ToolCall(id=f"g{self.tool_rounds}", name="ghost", arguments={})]
+        elif b != "no_tools":
             calls = [ToolCall(id=f"c{self.tool_rounds}", name="t", arguments={})]
             if b == "two_tools":
                 calls.append(ToolCall(id=f"d{self.tool_rounds}", name="ghost", arguments={}))
@@ -208,7 +212,11 @@ def tool_loop(limit_hi):
             return "ok"
         mito.register_function("t", body, "d")
         nuc = Nucleus(provider=prov)
-        st, res = call_returns(c, "C18.total", "transcribe_with_tools", nuc.transcribe_with_tools, "p", mito, None, maxit, auto)
+        try:
+            st, res = call_returns(c, "C18.total", "transcribe_with_tools", nuc.transcribe_with_tools, "p", mito, None, maxit, auto)
+        except Runaway:
+            c.fail("C18.f", {"what": "tool rounds did not stop (far more than max_iterations)", "tool_rounds": prov.tool_rounds, "completions": prov.completions})
+            return
         if st != "ok":
             c.fail("C18.total", {"what": "tool loop raised", "raised": repr(res)})
             return
